@@ -182,3 +182,31 @@ def database_with_goal(ft: Features, target, tree, layout='none', label='goal'):
     proof = mmref.encode_compressed(tree, mandatory_labels(ft, target), layout)
     st = st + [('p', label, (TH, target), proof)]
     return st
+
+
+def database_with_marks(ft: Features, target, tree, marks, ref='latest', label='goal'):
+    st = prelude(ft)
+    proof = mmref.encode_compressed_marks(tree, mandatory_labels(ft, target), marks, ref)
+    return st + [('p', label, (TH, target), proof)]
+
+
+def big_database(n: int, layout: str = 'none'):
+    """a database with n extra constant constructors k0..k(n-1); the target |- ( \\imp T ( \\imp c0 T ) ) is an
+    instance of prop-1 where T mentions every constant, so the
+    proof's label list has about n entries and its step numbers pass the 20/120/620 letter boundaries."""
+    ft = Features()
+    st = prelude(ft)
+    ks = [f'k{i}' for i in range(n)]
+    st = st + [('c', tuple(ks))] + [('a', f'{k}-is-pattern', (PAT, A(k))) for k in ks]
+    for k in ks:
+        WFF[k] = f'{k}-is-pattern'
+    v = mmref.verify_db(st)
+    frames = {k: f for k, f in v.labels.items() if isinstance(f, mmref.Frame)}
+    sel = ks
+    t = A(sel[-1])
+    for k in reversed(sel[:-1]):
+        t = IMP(A(k), t)
+    target = IMP(t, IMP(A('c0'), t))
+    tree = apply('proof-rule-prop-1', frames, {'ph0': t, 'ph1': A('c0')}, [])
+    proof = mmref.encode_compressed(tree, [], layout)
+    return st + [('p', 'goal', (TH, target), proof)], target
